@@ -61,6 +61,37 @@ PROPS = {
                 lemmas=[], replay='replay.explore', standin='replay.explore',
                 assumptions=['A-limits', 'resting points are the calls of Runner.wait; OS scheduling latency between Process.start() and the child running is not modelled'],
                 design_ref='7/C05'),
+    'C06': dict(functions=['labtech.cache:BaseCache.save', 'labtech.cache:PickleCache.save_result', 'labtech.cache:PickleCache.load_result',
+                           'labtech.cache:BaseCache.load_metadata', 'labtech.cache:BaseCache.build_result_meta', 'labtech.cache:BaseCache.load_result_with_meta',
+                           'labtech.cache:BaseCache.is_cached', 'labtech.runners.base:run_or_load_task', 'labtech.lab:Lab.is_cached',
+                           f'{TS}.complete_task'],
+                lemmas=[], replay='replay.c06', standin='replay.c06',
+                assumptions=['TRUSTED file-system model (contracts on Storage.exists/file_handle/delete/find_keys, json.dump/load, pickle.dump/load, file close): see trusted_base',
+                             'A-json / A-pickle: load(dump(x)) == x; A-iso: fromisoformat(isoformat(t)) == t',
+                             'A-float: timedelta(seconds=td.total_seconds()) == td is floating point; treated as exact in the proof and checked natively over edge durations by replay/c06.py (bounded)',
+                             'C07: distinct tasks have distinct keys (a load through key t returns what was stored for t)',
+                             'persistence of the directory between processes/backends is the operating system\'s'],
+                design_ref='7/C06'),
+    'C08': dict(functions=['labtech.cache:BaseCache.save', 'labtech.cache:PickleCache.save_result', 'labtech.cache:PickleCache.load_result',
+                           'labtech.cache:BaseCache.load_metadata', 'labtech.cache:BaseCache.load_result_with_meta', 'labtech.cache:BaseCache.is_cached',
+                           'labtech.cache:BaseCache.delete', 'labtech.cache:NullCache.is_cached', 'labtech.cache:NullCache.save', 'labtech.cache:NullCache.delete',
+                           'labtech.runners.base:run_or_load_task', 'labtech.lab:Lab.is_cached', 'labtech.lab:Lab.uncache_tasks',
+                           'labtech.lab:TaskCoordinator.use_cache:body'],
+                lemmas=[], replay='replay.c08', standin='replay.c08',
+                assumptions=['TRUSTED file-system model; both LocalStorage and FsspecStorage are used through the same abstract Storage contract (that each implements it is C18\'s cone for LocalStorage; FsspecStorage is checked natively by replay/c08.py only)',
+                             'a cache hit/miss decision is stable while a task has not been executed (only its own execution writes its key)',
+                             'cached_tasks is read-only by construction of load_task/load_metadata (its reconstruction contract is C09)'],
+                design_ref='7/C08'),
+    'C12': dict(functions=['labtech.cache:BaseCache.save', 'labtech.cache:PickleCache.save_result', 'labtech.runners.base:run_or_load_task'],
+                lemmas=[], replay='replay.c12',
+                assumptions=['single-fault model: each trusted storage primitive on the save path may raise once (OSError/TypeError/pickling error) with the partial effect its assumed contract states',
+                             'A-cache0: an entry that exists before the save is complete'],
+                design_ref='7/C12'),
+    'C13': dict(functions=['labtech.cache:BaseCache.save', 'labtech.cache:PickleCache.save_result'],
+                lemmas=[], replay='replay.c12',
+                assumptions=['crash points: every statement boundary of save/save_result and the partial-effect state of every trusted storage primitive; SIGKILL/terminate stop the child between two primitives or inside one, leaving that primitive\'s file incomplete or unchanged',
+                             'A-cache0'],
+                design_ref='7/C13'),
     'C10': dict(functions=SCHED + [f'{SR}.wait', f'{PR}.wait', f'{SP}._submit_task', f'{PM}:_subprocess_target', f'{PE}._consume_result_queue'],
                 lemmas=[], replay='replay.c10', standin='replay.explore',
                 assumptions=[A_PROC, 'that the normal exit is reached is C11'], design_ref='7/C10'),
